@@ -441,6 +441,9 @@ def main(argv=None) -> int:
 
     # run shards
 
+    if hasattr(mod, 'prepare'):  # work to be done once, in the parent, before the shards are forked (inherited by them)
+        mod.prepare(args.tier)
+
     jobs = [(mod_name, args.tier, seed, i, nshards, wall) for i in range(nshards)]
 
     if nshards == 1:
